@@ -16,6 +16,7 @@ import OtpVerif.Model.Justified
 import OtpVerif.Props.C13
 import OtpVerif.Props.C15
 import OtpVerif.Props.C17
+import OtpVerif.Model.Url
 
 namespace OtpVerif.Props.C10
 open OtpVerif OtpVerif.Model OtpVerif.Lemmas
@@ -115,6 +116,25 @@ theorem C10_random (a : Nat) (st : Bytes) : (randomSecret a st).1 ≠ .panic := 
   · intro h; cases h
   · simp only; split <;> (intro h; cases h)
 
+open OtpVerif.Std.Url in
+/-- (a) provisioning URLs: building and parsing return normally for every field value and every URL value of the
+modelled shape (the `net/url` model itself is total: `urlParse` answers ok / err / unsupported) -/
+theorem C10_url (p : URLParam) (u : URL) :
+    generateTOTPURL p ≠ .panic ∧ generateHOTPURL p ≠ .panic ∧ parseOTPAuthURL u ≠ .panic := by
+  refine ⟨?_, ?_, ?_⟩
+  · unfold generateTOTPURL generateOTPURL
+    simp only
+    repeat' split
+    all_goals (intro h; cases h)
+  · unfold generateHOTPURL generateOTPURL
+    simp only
+    repeat' split
+    all_goals (intro h; cases h)
+  · unfold parseOTPAuthURL
+    simp only
+    repeat' split
+    all_goals (intro h; cases h)
+
 end OtpVerif.Props.C10
 
 #print axioms OtpVerif.Props.C10.C10_sites
@@ -124,3 +144,4 @@ end OtpVerif.Props.C10
 #print axioms OtpVerif.Props.C10.C10_decode_suite
 #print axioms OtpVerif.Props.C10.C10_helpers
 #print axioms OtpVerif.Props.C10.C10_random
+#print axioms OtpVerif.Props.C10.C10_url
